@@ -1012,6 +1012,10 @@ def targeted(ctx):
 
 
 def run(ctx, replay=None):
+    import warnings
+
+    warnings.simplefilter("ignore")
+    np.seterr(all="ignore")
     ctx.rule = (
         "correspondence: exhaustive 1-d (sizes <= N, bounds in [-n-2,n+2] or None, 7 steps, all chunkings, 3 value kinds; subsampled in quick) "
         "+ seeded random n-d slice/int keys; search: seeded random histories (length <= 8 quick / 30 thorough) over pools of <= ~8 collections; "
